@@ -5,13 +5,14 @@
 
     NOT theorems (see checks/C06.py, LEVEL_TEXT): accuracy of GammaLn (Lanczos) at non-integer arguments, of the continued
     fraction / quadrature (and of the series at non-integer shapes) against the true P, Q for all (x,a); monotonicity in x; the
-    range [0,1] for a <= 100 in floating point; convergence of the Halley iteration of Inv_GammaP; Pascal's rule for
+    range [0,1] for a <= 100 in floating point (over the reals Q > 0 on the continued-fraction region and Q < 1 on the series region ARE theorems:
+    C06_regions_unconditional); termination of the continued-fraction loop; convergence of the Halley iteration of Inv_GammaP; Pascal's rule for
     Binomial_Coefficient with n > 170; everything about rounding (the theorems are over the reals).  They are covered by
     kernel-certified samples (S3) and implementation-side predicates (S4). *)
 From Coq Require Import Reals ZArith List Bool.
 From Coquelicot Require Import Coquelicot.
 From LP Require Import Num NumR C06_Model C06_Proofs_Fact C06_Proofs_Gamma C06_Proofs_QInt C06_Proofs_Seq C06_Proofs_Quad C06_Proofs_Inv
-  C06_Proofs_Ser C06_Proofs_Lanczos0 C06_Proofs_Lanczos C06_Proofs_Examples.
+  C06_Proofs_Ser C06_Proofs_Lanczos0 C06_Proofs_Lanczos C06_Proofs_Examples C06_Proofs_Region C06_Proofs_IntShape.
 (* C06_Proofs_Examples.v: concrete inputs satisfying the hypotheses of the implications below (non-vacuity) *)
 Import ListNotations.
 Local Open Scope bool_scope.
@@ -66,18 +67,14 @@ Theorem C06_binomial_history_free (tbl : list R) (n k : Z) : tbl_inv_R tbl -> (n
 Proof. exact (binomial_history_free tbl n k). Qed.
 Print Assumptions C06_binomial_history_free.
 
-(** Pascal's rule *)
-Theorem C06_binomial_pascal (n k : Z) : (1 <= k <= n)%Z -> (n <= 170)%Z ->
-  exists b b1 b2, binomial ROps n k = Ok b /\ binomial ROps (n - 1) (k - 1) = Ok b1 /\
-                  binomial ROps (n - 1) k = Ok b2 /\ b = b1 + b2.
-Proof. exact (binomial_pascal n k). Qed.
-Print Assumptions C06_binomial_pascal.
-
-(** symmetry *)
-Theorem C06_binomial_symmetry (n k : Z) : (0 <= k <= n)%Z -> (n <= 170)%Z ->
-  binomial ROps n k = binomial ROps n (n - k).
-Proof. exact (binomial_symmetry n k). Qed.
-Print Assumptions C06_binomial_symmetry.
+(** Pascal's rule and symmetry (one statement: the former C06_binomial_pascal and C06_binomial_symmetry) *)
+Theorem C06_binomial_pascal_symmetry (n k : Z) : (n <= 170)%Z ->
+  ((1 <= k <= n)%Z ->
+     exists b b1 b2, binomial ROps n k = Ok b /\ binomial ROps (n - 1) (k - 1) = Ok b1 /\
+                     binomial ROps (n - 1) k = Ok b2 /\ b = b1 + b2) /\
+  ((0 <= k <= n)%Z -> binomial ROps n k = binomial ROps n (n - k)).
+Proof. exact (fun Hn => conj (fun H => binomial_pascal n k H Hn) (fun H => binomial_symmetry n k H Hn)). Qed.
+Print Assumptions C06_binomial_pascal_symmetry.
 
 (** n < k gives 0, a negative argument exits *)
 Theorem C06_binomial_guards (tbl : list R) (n k : Z) :
@@ -135,14 +132,12 @@ Theorem C06_upper_plus_lower (x s u l : R) :
 Proof. exact (upper_plus_lower x s u l). Qed.
 Print Assumptions C06_upper_plus_lower.
 
-(** Q(0,a) = 1, P(0,a) = 0; x < 0 or a <= 0 exits *)
-Theorem C06_gammaq_at_zero (a : R) : 0 < a -> gammaq ROps 0 a = Ok 1 /\ gammap ROps 0 a = Ok 0.
-Proof. exact (fun H => conj (gammaq_at_zero a H) (gammap_at_zero a H)). Qed.
-Print Assumptions C06_gammaq_at_zero.
-
-Theorem C06_gammaq_guard (x a : R) : x < 0 \/ a <= 0 -> gammaq ROps x a = Exit.
-Proof. exact (gammaq_guard x a). Qed.
-Print Assumptions C06_gammaq_guard.
+(** Q(0,a) = 1, P(0,a) = 0; x < 0 or a <= 0 exits (one statement: the former C06_gammaq_at_zero and C06_gammaq_guard) *)
+Theorem C06_gammaq_at_zero_and_guard :
+  (forall a : R, 0 < a -> gammaq ROps 0 a = Ok 1 /\ gammap ROps 0 a = Ok 0) /\
+  (forall x a : R, x < 0 \/ a <= 0 -> gammaq ROps x a = Exit).
+Proof. exact (conj (fun a H => conj (gammaq_at_zero a H) (gammap_at_zero a H)) gammaq_guard). Qed.
+Print Assumptions C06_gammaq_at_zero_and_guard.
 
 (** "the algorithm switch-overs at x=a+1 and a=100": which method answers where *)
 Theorem C06_gammaq_branches (x a : R) : 0 < x -> 0 < a ->
@@ -344,3 +339,49 @@ Theorem C06_gamma_no_threshold (x : R) : 0 < x ->
     (forall y gy vy, gammaln ROps y = Ok gy -> gamma ROps y = Ok vy -> (v < vy <-> g < gy)).
 Proof. exact (gamma_no_threshold x). Qed.
 Print Assumptions C06_gamma_no_threshold.
+
+(** "both sides of the algorithm switch-over at x = a+1", WITHOUT the premises of C06_lentz_is_convergent / C06_gammaq_cf_spec and without the Fuel outcome of
+    C06_gser_partial_sums (non-vacuity: regions_hyp_sat in C06_Proofs_Region.v).
+    (1) Continued-fraction side, EVERY a > 0, x >= a+1 and EVERY iteration count n (induction on n): neither clamp |d|,|c| < FPMIN ever triggers, the term index is n+1
+    (advanced every iteration), b = b_n, and the state is the n-th convergent d = A_{n-1}/A_n, c = Bt_n/Bt_{n-1}, h = Bt_n/A_n > 0 with A_n/A_{n-1} >= n+1 and
+    Bt_n/Bt_{n-1} >= n+1; whenever GammaQcf answers, the answer is exp(-x + a ln x - GammaLn a) Bt_n/A_n > 0; for a <= 100 (where GammaQ uses it) Q > 0 and P < 1.
+    (2) Series side, EVERY a > 0, 0 < x < a+1: the terms x^j/(a(a+1)..(a+j)) (gser_term) are positive and decreasing; for any integer N >= a+1 (N + 52 <= 100000)
+    GammaPser ANSWERS (the loop stops, no Fuel) at an index k <= N + 52 with a positive value; for a <= 100 GammaQ and GammaP both answer, P > 0, Q < 1, k <= 153.
+    NOT a theorem: that the continued-fraction loop stops within the fuel; Q <= 1 on the continued-fraction side and P <= 1 on the series side at non-integer a. *)
+Theorem C06_regions_unconditional :
+  (forall x a : R, 0 < a -> a + 1 <= x ->
+     (forall n, let s := lentz_run x a n in
+        lentz_noclamp a s /\ lz_i s = (Z.of_nat n + 1)%Z /\ lz_b s = cf_b x a n /\
+        lz_d s = cf_Am x a n / cf_A x a n /\ lz_c s = cf_Bt x a n / cf_Btm x a n /\ lz_h s = cf_Bt x a n / cf_A x a n /\ 0 < lz_h s /\
+        INR n + 1 <= cf_A x a n / cf_Am x a n /\ INR n + 1 <= cf_Bt x a n / cf_Btm x a n) /\
+     (forall v, gammaq_cf ROps x a = Ok v ->
+        exists n gln, gammaln ROps a = Ok gln /\ (1 <= Z.of_nat n <= 100000)%Z /\
+          v = exp (- x + a * ln x - gln) * (cf_Bt x a n / cf_A x a n) /\ 0 < v /\
+          Rabs (lz_del (lentz_run x a n) - 1) <= dbl_eps ROps) /\
+     (a <= 100 -> forall q, gammaq ROps x a = Ok q -> 0 < q /\ forall p, gammap ROps x a = Ok p -> p < 1)) /\
+  (forall x a : R, 0 < a -> 0 < x -> x < a + 1 ->
+     (forall j, 0 < gser_term x a j /\ gser_term x a (S j) <= gser_term x a j) /\
+     (forall N : nat, a + 1 <= INR N -> (Z.of_nat N + 52 <= 100000)%Z ->
+        exists v k gln, gammap_ser ROps x a = Ok v /\ gammaln ROps a = Ok gln /\ (k <= N + 52)%nat /\
+          v = sum_f_R0 (gser_term x a) k * exp (- x + a * ln x - gln) /\ 0 < v /\
+          Rabs (gser_term x a k) <= Rabs (sum_f_R0 (gser_term x a) k) * dbl_eps ROps /\
+          (forall j, (j < k)%nat -> Rabs (sum_f_R0 (gser_term x a) j) * dbl_eps ROps < Rabs (gser_term x a j))) /\
+     (a <= 100 ->
+        exists q p k, gammaq ROps x a = Ok q /\ gammap ROps x a = Ok p /\ q < 1 /\ 0 < p /\ p + q = 1 /\ (k <= 153)%nat /\
+          exists gln, gammaln ROps a = Ok gln /\ p = sum_f_R0 (gser_term x a) k * exp (- x + a * ln x - gln))).
+Proof. exact regions_unconditional. Qed.
+Print Assumptions C06_regions_unconditional.
+
+(** "agree with an independent reference to 1e-12 for a <= 100", series side of the switch-over, EVERY integer shape a = q+1 <= 100 and EVERY 0 < x < a+1, no premise about
+    the loop (non-vacuity: integer_shape_hyp_sat in C06_Proofs_IntShape.v): GammaP and GammaQ answer p, 1-p with
+        e^-T P / (1 + 2^-52 (a + 155)) <= p <= e^T P,   T = a 1e-14,
+    where P = (1/q!) RInt_0^x t^q e^-t is the TRUE P(x,a), 0 < P <= 1: relative error at most about 1.06e-12 (truncation: the stopping test at an index <= 153; the Lanczos
+    factor q!/exp(GammaLn a) from C06_lanczos_recurrence_partial), over the reals.  _partial: integer shapes only, series side only, no rounding. *)
+Theorem C06_series_accuracy_integer_shape_partial (q : nat) (x : R) : (S q <= 100)%nat -> 0 < x -> x < INR (S q) + 1 ->
+  exists p qq, gammap ROps x (INR (S q)) = Ok p /\ gammaq ROps x (INR (S q)) = Ok qq /\ p + qq = 1 /\
+    let P := / INR (fact q) * RInt (fun t => t ^ q * exp (- t)) 0 x in
+    let T := INR (S q) * (1 / 100000000000000) in
+    0 < P /\ P <= 1 /\ 0 < p /\
+    exp (- T) * P <= p * (1 + dbl_eps ROps * (INR (S q) + 155)) /\ p <= exp T * P.
+Proof. exact (gammap_integer_shape_accuracy q x). Qed.
+Print Assumptions C06_series_accuracy_integer_shape_partial.
